@@ -1,4 +1,10 @@
-/* Controlled-scheduler replacement for the 4 libgomp entry points the kernels use. (spike) */
+/* Controlled-scheduler replacement for the 4 libgomp entry points the compiled kernels use
+ * (GOMP_parallel, GOMP_barrier, omp_get_num_threads, omp_get_thread_num).
+ * GOMP_parallel spawns T pthreads running the compiler-outlined region of the REAL kernel, but only
+ * the thread holding the baton runs; threads yield at region start, at GOMP_barrier and at region end.
+ * At every yield the scheduler picks the next runnable thread from the choice list supplied through
+ * shim_config() (default: choice 0 = lowest runnable id) and records (n_enabled, chosen).
+ * only=k >= 0: isolation run - only thread k executes its share of every region (write-set probe). */
 #include <pthread.h>
 #include <stdlib.h>
 #include <string.h>
@@ -16,6 +22,7 @@ static pthread_cond_t cv = PTHREAD_COND_INITIALIZER;
 static int baton = -1;
 static __thread int my_id = 0;
 static __thread int in_parallel = 0;
+static __thread int inline_region = 0;
 void shim_config(int T, const int *sched, int n, int only) {
     g_T = T < 1 ? 1 : (T > MAXT ? MAXT : T);
     g_sched_len = n > MAXSTEPS ? MAXSTEPS : n;
@@ -47,11 +54,16 @@ static void *runner(void *arg) {
     pthread_mutex_unlock(&mu);
     return NULL;
 }
-void GOMP_barrier(void) { if (in_parallel && g_only < 0) yield_to_scheduler(2); }
+void GOMP_barrier(void) { if (in_parallel && !inline_region && g_only < 0) yield_to_scheduler(2); }
 int omp_get_thread_num(void) { return in_parallel ? my_id : 0; }
 int omp_get_num_threads(void) { return in_parallel ? g_T : 1; }
 void GOMP_parallel(void (*fn)(void *), void *data, unsigned num_threads, unsigned flags) {
     pthread_t tid[MAXT]; int T = g_T; g_regions++;
+    if (T == 1 && g_only <= 0) {            /* single thread: nothing to schedule, run inline */
+        int saved_id = my_id, saved_in = in_parallel;
+        my_id = 0; in_parallel = 1; inline_region = 1; fn(data); inline_region = 0; my_id = saved_id; in_parallel = saved_in;
+        return;
+    }
     pthread_mutex_lock(&mu); baton = -1;
     for (int i = 0; i < T; i++) { thr[i].fn = fn; thr[i].data = data; thr[i].id = i; thr[i].state = 0; }
     pthread_mutex_unlock(&mu);
